@@ -24,6 +24,8 @@ func main() {
 		cmdRef(os.Args[2:])
 	case "reload":
 		cmdReload(os.Args[2:])
+	case "life":
+		cmdLife(os.Args[2:])
 	default:
 		fmt.Fprintln(os.Stderr, "unknown command", os.Args[1])
 		os.Exit(2)
